@@ -1095,6 +1095,9 @@ def scaled_check(c):
     U = span / prec + 1
     if U > W * (1 + 1e-12):
         probs.append('premise span/prec + 1 <= 256^n: %.6e > 256^%d' % (U, n))
+    want_n = -int(-(np.log(U) / np.log(256)) // 1)        # the formula of C11_scaled_nbytes, as the code writes it
+    if n != want_n and abs(np.log(U) / np.log(256) - round(np.log(U) / np.log(256))) > 1e-9:
+        probs.append('premise nbytes = ceil(ln U / ln 256): stored %d, formula %d' % (n, want_n))
     if n > 1 and U <= 256. ** (n - 1) * (1 - 1e-12):
         probs.append('nbytes not minimal: %.6e fits in %d bytes' % (U, n - 1))
     want_inv = span / (W * (1. - eps))
